@@ -47,7 +47,7 @@ CHECKS.update({
          "Exploration: enumerated message-passing idioms (1-2 hops, RMW chains, fence pairs, spawn/join, unsync_load) in every ordering assignment + random programs; loom must report a race iff some consistent execution has two conflicting accesses unordered by happens-before (strong/weak gap decides nothing). Also closure-long cell accesses that publish a flag from inside the closure (CellHold) and every assignment of read-guard/write-guard/mutex blocks over one cell to 3 threads. Also two queued channel messages with the read after the first receive only (gated on relaxed flags), and an Arc part: which Arc operations are synchronisation edges (release of a handle, then failing/successful try_unwrap, clone+drop, increment+decrement, behind a relaxed flag). Also Atomic::with_mut as an access that lasts for its whole closure.",
          "trusted: rc11.rs race_verdict, sync.rs reference machine; await loops modelled as blocking reads", "§5-C04"),
  "C06": ("runtime monitoring with fault injection: user assertions injected at crash points (any thread, while holding guards, inside with_mut closures, while others are blocked, before a spawned thread ran, at the branch limit); catch_unwind verdict vs. reachable failures of the reference machine; worker survival; probe model compared with its fresh-process record",
-         "Fault enumeration: every program carries one or more injected failures; loom::model must unwind with a reachable failure (never return normally, never kill the process), return normally when none is reachable, and leave the process clean for the next model. Also failures raised while the thread owns objects whose destructors lock a held mutex (FailDropLock), while threads have live thread-locals with loom operations in their destructors (Tls), crash points at max_branches = L-1, 2L/3, L/2, the thread-local/lazy-static programs (none can fail), and a per-job monitor that std::thread::panicking() is false after every model returned. The unwind guard every thread owns performs an rmw, a load, a store and an unsync_load while unwinding. One pinned program with two failures in one execution is an open known finding (identified by input).",
+         "Fault enumeration: every program carries one or more injected failures; loom::model must unwind with a reachable failure (never return normally, never kill the process), return normally when none is reachable, and leave the process clean for the next model. Also failures raised while the thread owns objects whose destructors lock a held mutex (FailDropLock), while threads have live thread-locals with loom operations in their destructors (Tls), crash points at max_branches = L-1, 2L/3, L/2, the thread-local/lazy-static programs (none can fail), and a per-job monitor that std::thread::panicking() is false after every model returned. The unwind guard every thread owns performs an rmw, a load, a store and an unsync_load while unwinding. Also one pinned program with two failures in one execution (a suspended unwind must be finished before loom::model returns).",
          "trusted: sync.rs reference machine, panic classifier; when several failure kinds are reachable any is accepted", "§5-C06"),
 })
 CHECKS.update({
